@@ -1925,8 +1925,11 @@ class Comparator:
             if isinstance(eq_type, FunctionType) and eq_type(obj1) and eq_type(obj2):
                 return eq(obj1, obj2)
         if isinstance(obj2, (set, frozenset)):
-            # Unordered: equal sets may iterate in different orders
-            return type(obj1) is type(obj2) and obj1 == obj2
+            # Unordered: equal sets may iterate in different orders (the
+            # elements are compared as everywhere else: objects of a type
+            # not known here never count as equal)
+            return (type(obj1) is type(obj2) and len(obj1) == len(obj2) and
+                    all(any(cls.is_equal(o1, o2) for o2 in obj2) for o1 in obj1))
         if isinstance(obj2, (list, tuple)):
             return cls.compare_iterator(obj1, obj2)
         elif isinstance(obj2, dict):
@@ -3057,11 +3060,15 @@ class Parameters:
                     with _batch_call_watchers(self_.self_or_cls, enable=watcher.queued, run=False):
                         self_._execute_watcher(watcher, events)
         except BaseException:
-            # A watcher failed: whatever was queued during this flush must
-            # not be delivered by some unrelated later assignment.
-            if not self_._BATCH_WATCH:
-                self_._events = []
-                self_._state_watchers = []
+            # A watcher failed: whatever was queued during this flush is
+            # delivered now, not by some unrelated later assignment (and
+            # dropped if that fails as well).
+            if not self_._BATCH_WATCH and self_._events:
+                try:
+                    self_._batch_call_watchers()
+                except BaseException:
+                    self_._events = []
+                    self_._state_watchers = []
             raise
     # Please update the docstring with better description and examples
     # I've (MarcSkovMadsen) not been able to understand this. Its probably because I lack context.
@@ -4299,8 +4306,13 @@ class Parameters:
                 # CB: not storing the time_fn: assuming that doesn't
                 # change.
             elif isinstance(g,Parameterized) and id(g) not in _seen:
-                # (a sub-object: its dynamic values are part of this state)
-                g.param._state_push(_seen)
+                # (a sub-object: its dynamic values are part of this state;
+                # a class keeping short-term state of its own may define
+                # _state_push/_state_pop itself)
+                if hasattr(g, '_state_push'):
+                    g._state_push()
+                else:
+                    g.param._state_push(_seen)
 
     def _state_pop(self_, _seen=None):
         """
@@ -4316,10 +4328,15 @@ class Parameters:
         for pname, p in self.param.objects('existing').items():
             g = self.param.get_value_generator(pname)
             if hasattr(g,'_Dynamic_last'):
+                if not g._saved_Dynamic_last:
+                    continue    # installed after the state was pushed
                 g._Dynamic_last = g._saved_Dynamic_last.pop()
                 g._Dynamic_time = g._saved_Dynamic_time.pop()
             elif isinstance(g,Parameterized) and id(g) not in _seen:
-                g.param._state_pop(_seen)
+                if hasattr(g, '_state_pop'):
+                    g._state_pop()
+                else:
+                    g.param._state_pop(_seen)
 
     def pprint(
         self_,
